@@ -509,9 +509,10 @@ func c13Stream(dir string, seed int64, tier string) {
 // and the bases 0,2,4,6.  A letter whose push would overlap a resident line is replaced by a read of that
 // line, so every history keeps the contract; a pushw is followed by the eviction of its victim before the
 // next letter.  Each history ends with a dump of the lines.
-//   quick:    length 5 over 10 letters (push 0/2/4/6, pushw 4, get 1/3/5, evict 2, write 1)
-//   thorough: length 6 over the same letters, then length 5 over 14 letters
-//             (push 0/2/4/6, pushw 0/6, get 1/3/5/7, evict 2/4, write 1/3)
+//
+//	quick:    length 5 over 10 letters (push 0/2/4/6, pushw 4, get 1/3/5, evict 2, write 1)
+//	thorough: length 6 over the same letters, then length 5 over 14 letters
+//	          (push 0/2/4/6, pushw 0/6, get 1/3/5/7, evict 2/4, write 1/3)
 type c13Letter struct {
 	op string
 	a  int32
